@@ -43,26 +43,28 @@ import (
 func init() { extractors = append(extractors, extractTrans) }
 
 type transTarget struct {
+	mod             string // generated module Gen/<mod>.lean (one per component, so that a function the
+	// translator cannot follow only breaks the properties that use that component)
 	rel, recv, name string // package directory, receiver type ("" = function), Go name
 	lean            string // name of the generated def
 }
 
 var transTargets = []transTarget{
-	{"", "blockManager", "findNextHeaderCheckpoint", "findNextHeaderCheckpoint"},
-	{"", "blockManager", "findPreviousHeaderCheckpoint", "findPreviousHeaderCheckpoint"},
-	{"headerlist", "", "invertLowestOne", "invertLowestOne"},
-	{"headerlist", "", "getAncestorHeight", "getAncestorHeight"},
-	{"chainimport", "", "targetHeightToImportSourceIndex", "targetHeightToImportSourceIndex"},
-	{"chainimport", "headersImport", "determineDivergenceSyncModes", "determineDivergenceSyncModes"},
-	{"chainimport", "headersImport", "determineProcessingRegions", "determineProcessingRegions"},
-	{"", "ChainService", "prepareCFiltersQuery", "prepareCFiltersQuery"},
-	{"headerfs", "", "readHeadersFromFile", "readHeadersFromFile"},
-	{"headerfs", "blockHeaderStore", "FetchHeaderAncestors", "blockHeaderStore_FetchHeaderAncestors"},
-	{"headerfs", "filterHeaderStore", "FetchHeaderAncestors", "filterHeaderStore_FetchHeaderAncestors"},
-	{"query", "peerRanking", "AddPeer", "peerRanking_AddPeer"},
-	{"query", "peerRanking", "Punish", "peerRanking_Punish"},
-	{"query", "peerRanking", "Reward", "peerRanking_Reward"},
-	{"query", "peerRanking", "ResetRanking", "peerRanking_ResetRanking"},
+	{"TransBM", "", "blockManager", "findNextHeaderCheckpoint", "findNextHeaderCheckpoint"},
+	{"TransBM", "", "blockManager", "findPreviousHeaderCheckpoint", "findPreviousHeaderCheckpoint"},
+	{"TransBM", "headerlist", "", "invertLowestOne", "invertLowestOne"},
+	{"TransBM", "headerlist", "", "getAncestorHeight", "getAncestorHeight"},
+	{"TransImport", "chainimport", "", "targetHeightToImportSourceIndex", "targetHeightToImportSourceIndex"},
+	{"TransImport", "chainimport", "headersImport", "determineDivergenceSyncModes", "determineDivergenceSyncModes"},
+	{"TransImport", "chainimport", "headersImport", "determineProcessingRegions", "determineProcessingRegions"},
+	{"TransQuery", "", "ChainService", "prepareCFiltersQuery", "prepareCFiltersQuery"},
+	{"TransStore", "headerfs", "", "readHeadersFromFile", "readHeadersFromFile"},
+	{"TransStore", "headerfs", "blockHeaderStore", "FetchHeaderAncestors", "blockHeaderStore_FetchHeaderAncestors"},
+	{"TransStore", "headerfs", "filterHeaderStore", "FetchHeaderAncestors", "filterHeaderStore_FetchHeaderAncestors"},
+	{"TransRank", "query", "peerRanking", "AddPeer", "peerRanking_AddPeer"},
+	{"TransRank", "query", "peerRanking", "Punish", "peerRanking_Punish"},
+	{"TransRank", "query", "peerRanking", "Reward", "peerRanking_Reward"},
+	{"TransRank", "query", "peerRanking", "ResetRanking", "peerRanking_ResetRanking"},
 }
 
 // external packages whose struct types / constants the translator looks into
@@ -179,6 +181,7 @@ type structInfo struct {
 }
 
 type tgen struct {
+	mod     string
 	done    map[string]*tfunc // by key rel|recv|name
 	order   []*tfunc
 	structs map[string]*structInfo
@@ -413,25 +416,41 @@ func (g *tgen) structure(n *types.Named, st *types.Struct) string {
 // ---- driver -----------------------------------------------------------------------
 
 func extractTrans() {
-	l := newLean("Trans")
-	// the generated module needs the prelude: rewrite the header
-	l.sb.Reset()
-	fmt.Fprintf(&l.sb, "/- GENERATED by /verif/extract (trans.go) from /repo's working tree on every run.  Do not edit.\n"+
-		"Translation of Go functions into total Lean definitions; conventions and idealisations:\n"+
-		"Neutrino/Model/GoInt.lean and DESIGN.md section 4 (signed overflow and run-time panics are not modelled,\n"+
-		"`error` is a Bool, calls of untranslated functions are function parameters f<i>, reads of receiver state are\n"+
-		"parameters r<i>). -/\nimport Neutrino.Model.GoInt\nnamespace Neutrino.Gen.Trans\nopen Neutrino\n\n")
-	defer l.write()
-
 	// private loader state: whitelisted external packages are type-checked from the module cache
 	savedPkg, savedStd := pkgCache, stdCache
 	pkgCache, stdCache = map[string]*pkgInfo{}, map[string]*types.Package{}
 	extRealOn = true
 	defer func() { pkgCache, stdCache, extRealOn = savedPkg, savedStd, false }()
 
-	g := &tgen{done: map[string]*tfunc{}, structs: map[string]*structInfo{}, active: map[string]bool{}, consts: map[string]string{}}
+	var mods []string
 	for _, tg := range transTargets {
-		g.translate(tg)
+		if !contains(mods, tg.mod) {
+			mods = append(mods, tg.mod)
+		}
+	}
+	all := map[string][]string{}
+	for _, m := range mods {
+		all[m] = extractTransModule(m)
+	}
+	facts["trans"] = all
+}
+
+func extractTransModule(mod string) []string {
+	l := newLean(mod)
+	// the generated module needs the prelude: rewrite the header
+	l.sb.Reset()
+	fmt.Fprintf(&l.sb, "/- GENERATED by /verif/extract (trans.go) from /repo's working tree on every run.  Do not edit.\n"+
+		"Translation of Go functions into total Lean definitions; conventions and idealisations:\n"+
+		"Neutrino/Model/GoInt.lean and DESIGN.md section 4 (signed overflow and run-time panics are not modelled,\n"+
+		"`error` is a Bool, calls of untranslated functions are function parameters f<i>, reads of receiver state are\n"+
+		"parameters r<i>). -/\nimport Neutrino.Model.GoInt\nnamespace Neutrino.Gen.%s\nopen Neutrino\n\n", mod)
+	defer l.write()
+
+	g := &tgen{mod: mod, done: map[string]*tfunc{}, structs: map[string]*structInfo{}, active: map[string]bool{}, consts: map[string]string{}}
+	for _, tg := range transTargets {
+		if tg.mod == mod {
+			g.translate(tg)
+		}
 	}
 	var cn []string
 	for k := range g.consts {
@@ -463,12 +482,12 @@ func extractTrans() {
 		l.sb.WriteString(strings.Join(f.text, "\n") + "\n\n")
 		names = append(names, f.tg.lean)
 	}
-	facts["trans"] = names
+	return names
 }
 
 func (g *tgen) find(rel, recv, name string) (transTarget, bool) {
 	for _, tg := range transTargets {
-		if tg.rel == rel && tg.recv == recv && tg.name == name {
+		if tg.mod == g.mod && tg.rel == rel && tg.recv == recv && tg.name == name {
 			return tg, true
 		}
 	}
